@@ -107,6 +107,21 @@ def build_harness():
     rc, out = sh(["cargo", "build", "--release", "--offline"], cwd=os.path.join(ROOT, "harness"), timeout=3000)
     return rc == 0, out, time.time() - t0
 
+def prune_family_cache(keep_keys=4):
+    """the cache is keyed by a hash of the sources: keep only the most recently used few keys"""
+    root = os.path.join(BUILD, "fam")
+    if not os.path.isdir(root): return
+    by_key = {}
+    for d in os.listdir(root):
+        k = d.split("-")[0]
+        try: m = os.path.getmtime(os.path.join(root, d))
+        except OSError: continue
+        by_key[k] = max(by_key.get(k, 0), m)
+    old = sorted(by_key, key=lambda k: by_key[k], reverse=True)[keep_keys:]
+    for d in os.listdir(root):
+        if d.split("-")[0] in old:
+            shutil.rmtree(os.path.join(root, d), ignore_errors=True)
+
 def run_family(fam, tier, seed, key):
     """returns dict(cases, impl, model, stats) paths; cached per source-tree hash"""
     d = os.path.join(BUILD, "fam", f"{key}-{fam}-{tier}-{seed}")
@@ -519,6 +534,54 @@ def lean_obligations(pid, module, evidence, violations):
     return ok, len(thms), discharged
 
 STATIC_HALF = {"C04", "C07", "C13", "C17"}
+MIRI_PROPS = {"C02", "C05", "C11"}
+
+def run_miri_sample(families, tier, seed, key, n_t2=30, n_t1=60):
+    """runs evenly sampled cases of the already generated families under Miri; returns a summary"""
+    env = dict(ENV); env["MIRIFLAGS"] = "-Zmiri-disable-isolation -Zmiri-ignore-leaks"
+    env["CARGO_TARGET_DIR"] = os.path.join(BUILD, "cargo-miri")
+    out = dict(ran=False, t2_cases=0, t1_cases=0, ub=[], mismatches=0)
+    t0 = time.time()
+    def sample(path, n):
+        ls = [l for l in open(path).read().splitlines() if l.strip()]
+        if len(ls) <= n: return ls
+        step = len(ls) / n
+        return [ls[int(i * step)] for i in range(n)]
+    def run(binname, args, inp, cases, expect):
+        try:
+            p = subprocess.run(["cargo", "+nightly", "miri", "run", "--offline", "--bin", binname, "--"] + args,
+                               cwd=os.path.join(ROOT, "harness"), input=inp, stdout=subprocess.PIPE, stderr=subprocess.PIPE,
+                               text=True, env=env, timeout=3000)
+        except Exception as e:
+            out["error"] = str(e); return
+        if "no such command" in p.stderr or ("toolchain" in p.stderr and "not installed" in p.stderr):
+            out["error"] = p.stderr[-200:]; return
+        out["ran"] = True
+        got = [l for l in p.stdout.splitlines() if l.strip()]
+        if p.returncode != 0:
+            idx = len(got)          # the case after the last completed one
+            case = cases[idx] if idx < len(cases) else "(unknown case)"
+            out["ub"].append(dict(case=case, detail=p.stderr[-1500:]))
+        else:
+            out["mismatches"] += sum(1 for a, b in zip(got, expect) if a != b)
+    for fam in families:
+        r = run_family(fam, tier, seed, key)
+        if "error" in r: continue
+        cs = open(r["cases"]).read().splitlines(); im = open(r["impl"]).read().splitlines()
+        pairs = list(zip(cs, im))
+        if fam == "conc":
+            step = max(1, len(pairs) // n_t2)
+            sel = pairs[::step][:n_t2]
+            f = os.path.join(BUILD, "miri_t2.cases"); open(f, "w").write("\n".join(c for c, _ in sel) + "\n")
+            run("t2gen", ["--replay-file", f], None, [c for c, _ in sel], [t for _, t in sel])
+            out["t2_cases"] += len(sel)
+        elif fam in ("acq", "panic"):
+            step = max(1, len(pairs) // (n_t1 // 2))
+            sel = pairs[::step][:n_t1 // 2]
+            run("t1run", [], "\n".join(c for c, _ in sel) + "\n", [c for c, _ in sel], [t for _, t in sel])
+            out["t1_cases"] += len(sel)
+    out["wall_s"] = round(time.time() - t0, 1)
+    return out
 
 def t1_property(pid, tier, seed, replay):
     t0 = time.time()
@@ -550,6 +613,7 @@ def t1_property(pid, tier, seed, replay):
         return 2
 
     key = tree_hash([ "/repo/src", os.path.join(ROOT, "harness", "src"), os.path.join(ROOT, "lean", "HLV", "Model"), os.path.join(ROOT, "lean", "Main.lean")])
+    prune_family_cache()
     total = 0; nontriv = 0; disagreements = []; direct = []; samples = []; dist = {}
     n_direct_seen = 0; known_hits = {}; known_first = {}
     traces_validated = 0
@@ -627,6 +691,17 @@ def t1_property(pid, tier, seed, replay):
                                            message=f"static rule over the regenerated fact table: {r['rule']}: " + "; ".join(r["offending"]), source="static"))
         evidence["static_rules"] = [dict(rule=r["rule"], offending=r["offending"]) for r in static_rows]
 
+    # thorough: a sample of the same cases under Miri (undefined behaviour in happylock's unsafe code:
+    # aliasing violations when exclusion is broken, use after free, invalid lifetimes; the T2 baton
+    # orders all accesses, so plain data races are not what this detects)
+    if tier == "thorough" and pid in MIRI_PROPS:
+        mres = run_miri_sample(cfg["families"], tier, seed, key)
+        evidence["miri"] = mres
+        for bad in mres.get("ub", []):
+            n_direct_seen += 1
+            direct.append(dict(case=bad["case"], impl=bad["detail"], model=None,
+                               message="Miri reports undefined behaviour while the real code runs this case: " + bad["detail"][:300], source="miri"))
+
     n_dis_total = len(disagreements)
     disagreements = [d for d in disagreements if d]
     n_direct_total = n_direct_seen
@@ -696,6 +771,7 @@ def t1_property(pid, tier, seed, replay):
                   distribution=dist,
                   theorems=evidence.get("theorems", []),
                   static_rules=evidence.get("static_rules", []),
+                  miri=evidence.get("miri"),
                   exhaustive=True,
                   timings={k: v for k, v in evidence.items() if k.endswith("_s")},
               ),
